@@ -133,7 +133,7 @@ def ctypeOfName (n : String) : String :=
 /-- current ETag of a resolved resource as `r.get_etag()` returns it; `none` = it raises -/
 def currentEtag (w : World) : Res → Option String
   | .member _ _ e => some (strong e)
-  | .coll p => (w.colls[p]?).map fun _ => "ctag"   -- a collection tag: never equal to a member tag
+  | .coll p => (w.colls[p]?).map fun _ => strong "ctag"   -- a collection tag: never equal to a member tag
   | _ => none
 
 /-- the two precondition tests of `PutMethod.handle`, in the handler's order:
